@@ -301,6 +301,7 @@ def through_servers(ctx, res):
     rng = ctx.rng
     g = wire.Gen(rng)
     n = 25 if ctx.tier == 'quick' else 400
+    env_calls = []
     for i in range(n):
         items = [g.text(allow_none=False) for _ in range(rng.choice([0, 1, 3]))]
         bad = (i % 5 == 4)
@@ -322,6 +323,11 @@ def through_servers(ctx, res):
         res.evaluations += 1
         res.count('server:' + meth + (':unsupported' if bad else ''))
         case = {'through': 'MetadataProviderServer', 'method': meth, 'returned': repr(ret)[:200]}
+        # envelope: the queued message is Envelope.reply_message(id, text the writer returns)
+        import lightstreamer_adapter.metadata_protocol as mp
+        w = ari.call_writer(mp.write_get_items if meth == 'GIS' else mp.write_get_schema, ret)
+        if w[0] == b'ok' and len(msgs) == 1:
+            env_calls.append(([sym('envelope_reply'), b'7a', w[1]], msgs[0], case))
         if bad:
             if msgs or nex != 1:
                 res.oracle_violations.append({'case': case, 'detail': 'unsupported element: lines %r, handler calls %d (expected no line, 1 call)' % (msgs, nex),
@@ -347,12 +353,19 @@ def through_servers(ctx, res):
             fixture.feed(srv, '1|DPI|S|ARI.version|S|1.9.1\r\n')
             fixture.feed(srv, wire.encode_line(b'r9', 'SUB', ('WItem', item)).decode('ascii'))
             fixture.drain(srv)
+            env.time.now = 1700000000.0 + rng.randint(0, 10 ** 9) / 1000.0
             ad.listener.update(item, ev, bool(i % 2))
             ad.listener.end_of_snapshot(item)
             ad.listener.clear_snapshot(item)
             msgs = fixture.drain(srv)
+            ts = int(round(env.time.time() * 1000))
         res.evaluations += 1
         res.count('server:UD3')
+        import lightstreamer_adapter.data_protocol as dp
+        for msg, w in zip(msgs, [ari.call_writer(dp.write_update_map, item, 'r9', bool(i % 2), ev),
+                                 ari.call_writer(dp.write_eos, item, 'r9'), ari.call_writer(dp.write_cls, item, 'r9')]):
+            if w[0] == b'ok' and len(msgs) == 3:
+                env_calls.append(([sym('envelope_notify'), A(ts), w[1]], msg, {'through': 'DataProviderServer', 'item': item}))
         ok = len(msgs) == 3
         detail = 'lines %r' % (msgs,)
         if ok:
@@ -367,6 +380,15 @@ def through_servers(ctx, res):
         if not ok:
             res.oracle_violations.append({'case': {'through': 'DataProviderServer', 'item': item, 'events': repr(ev)[:300]}, 'detail': detail,
                                           'key': {'kind': 'decode_mismatch', 'writer': 'server'}})
+
+    outs = ctx.model([c for c, _, _ in env_calls])
+    for (c, msg, case), m in zip(env_calls, outs):
+        res.evaluations += 1
+        res.count('server:envelope')
+        got = msg.encode('utf-8', 'surrogatepass')
+        if not (isinstance(m, list) and len(m) == 2 and m[0] == got):
+            res.disagreements.append({'case': case, 'model': sx.dumps(m)[:500], 'impl': sx.dumps(got)[:500],
+                                      'relation': 'Envelope.reply_message / notify_message = message queued by send_reply / @notify _send_notify'})
 
 
 def search(ctx, res):
